@@ -320,6 +320,57 @@ def work(chunk, tier='quick'):
     return acc
 
 
+EXPONENT_FORMS = ['array0d', 'complex', 'float64', 'fraction', 'bicomplex']
+EXPONENTS = (2, 3, 5, -1, -2, -3, 0.5, 1.5, 2.5)
+
+
+def work_exponent_forms(chunk):
+    """x ** r with the constant exponent handed over as a 0-d array, a complex number with zero imaginary part, a
+    numpy scalar, a Fraction, a Bicomplex with zero perturbation parts.  Positive bases: the same holomorphic extension
+    within the same allowance.  Negative bases, integer-valued r only (an integer power whatever the type of the
+    exponent; the library evaluates these forms through exp(r log z), which carries an absolute rounding error of order
+    eps |f| in every component): every component within 1e3 eps |f|, i.e. value and sign of the power itself."""
+    from numdifftools.multicomplex import Bicomplex
+    acc = fw.Acc()
+    for form, r in chunk:
+        prog = ('p', X, r)
+        jets.EXP_FORM[0] = form
+        try:
+            for x in BASES:
+                if x == 0 or analysis(prog, x)[0] is None:
+                    continue
+                if x < 0 and (float(r) != int(r) or form == 'bicomplex'):
+                    continue
+                for pert in perturbations(x, 'quick')[::3]:
+                    if x > 0:
+                        status, worst, detail = check_one(prog, x, pert)
+                        if status == 'skip':
+                            continue
+                    else:
+                        if not in_scope(prog, x, pert):
+                            continue
+                        try:
+                            out = lib_eval(prog, Bicomplex(complex(x, pert[0]), complex(pert[1], pert[2])))
+                            got = [float(np.real(out.z1)), float(np.imag(out.z1)), float(np.real(out.z2)), float(np.imag(out.z2))]
+                            ref = reference(prog, x, pert)
+                            size = abs(ref[0])
+                            bad = [c for c in range(4) if not abs(got[c] - ref[c]) <= 1e3 * EPS * size]
+                            status = 'ok' if not bad else 'bad-' + ['real', 'imag1', 'imag2', 'imag12'][bad[0]]
+                            detail = 'Bicomplex result %r, holomorphic extension %r (allowed: 1e3 eps |f| per component)' % (got, ref)
+                        except Exception as e:      # noqa: BLE001
+                            status, detail = 'raised-' + type(e).__name__, '%s: %s' % (type(e).__name__, e)
+                    acc.case(('expform', form, r, x, pert), nontrivial=True,
+                             cell=['exponent-form/' + form, 'exponent-form/%s-base' % ('positive' if x > 0 else 'negative')], outcome=status)
+                    if status != 'ok':
+                        acc.violation('C12:pow-exponent-as-%s:%s:%s' % (form, status, 'negative-base' if x < 0 else 'positive-base'),
+                                      dict(kind='expform', form=form, r=r, x=x, pert=list(pert)),
+                                      'x ** %r with the exponent given as %s, x=%r, perturbation %r: %s' % (r, form, x, pert, detail),
+                                      rank=int(abs(r) * 10))
+        finally:
+            jets.EXP_FORM[0] = None
+    return acc
+
+
 def array_check(prog):
     """array arguments: shape kept and every regular element within the same component-wise allowance, for a
     (2,3) array of base points and for arrays that ALSO contain the non-invertible element 0 (whose own
@@ -366,10 +417,12 @@ def run(ctx):
     progs = programs(ctx.tier)
     acc = ctx.pmap(work, progs, chunk=1 if ctx.quick else 4, tier=ctx.tier)
     acc.merge(ctx.pmap(work_binary, list('+-*/'), chunk=1))
+    acc.merge(ctx.pmap(work_exponent_forms, [(f, r) for f in EXPONENT_FORMS for r in EXPONENTS], chunk=2))
     for p in progs[:3] + progs[30:32]:
         acc.sample(dict(f=jets.show(p), base_points=BASES, perturbation_example=perturbations(0.3, ctx.tier)[:2]))
     req = ['binary/op' + o for o in '+-*/'] + ['fn/' + f for f in FUNCS] + ['fn/op' + o for o in '+-*/'] + [
-        'fn/pow-x-int', 'fn/pow-x-real', 'fn/pow-bicomplex-exponent', 'step/tiny', 'step/finite']
+        'fn/pow-x-int', 'fn/pow-x-real', 'fn/pow-bicomplex-exponent', 'step/tiny', 'step/finite'] + \
+        ['exponent-form/' + f for f in EXPONENT_FORMS] + ['exponent-form/positive-base', 'exponent-form/negative-base']
     rule = ('%d programs (all 26 functions of the class, ring operations, reflected forms, integer/real/bicomplex '
             'powers%s) x base points %r (inside the real domain with margin, decided by the jet majorant) x 32 '
             'sign/size perturbation patterns + the multicomplex step shapes (h,0,0), (h,h,0) for h in %r; '
@@ -387,6 +440,10 @@ def replay(case):
         a = work_binary([case['op']])
         bad = [r['detail'] for k, (n, recs) in a.viol.items() for r in recs if r['case'].get('a') == case['a'] and r['case'].get('b') == case['b']]
         return not bad, '%r -> %s' % (case, bad or 'exact')
+    if case.get('kind') == 'expform':
+        a = work_exponent_forms([(case['form'], case['r'])])
+        bad = [r['detail'] for k, (n, recs) in a.viol.items() for r in recs if r['case'].get('x') == case['x']]
+        return not bad, '%r -> %s' % (case, bad[:1] or 'ok')
     prog = _tuplify(case['prog'])
     if case.get('kind') == 'array':
         txt = array_check(prog)
